@@ -86,6 +86,18 @@ def discharge(ob, allow_cvc5=True):
             if r is not None:
                 res.update(status='discharged', backend='certificate+z3', detail=r)
                 return _fin(res, t0)
+        # 0b. relevance-filtered SMT: only the facts that mention a symbol of the goal
+        gs = set(cert.symbols_of(ob.goal))
+        rel = [f for f in ob.facts + ob.pc if gs & set(cert.symbols_of(f))]
+        if len(rel) < len(ob.facts) + len(ob.pc):
+            sr = z3.Solver()
+            sr.set('timeout', 3000)
+            for f in rel:
+                sr.add(f)
+            sr.add(z3.Not(ob.goal))
+            if sr.check() == z3.unsat:
+                res.update(status='discharged', backend='z3', detail='relevant facts only')
+                return _fin(res, t0)
         # 0. a short SMT attempt settles the easy ones
         s0 = _solver(ob)
         s0.set('timeout', 1500)
@@ -97,7 +109,7 @@ def discharge(ob, allow_cvc5=True):
             p = T.eq_poly(*ob.eq)
             if p is not None:
                 hyps = list(ob.hyps)
-                r = cert.prove_eq(p, hyps, ob.ctx.order, timeout=CERT_TIMEOUT_S, facts=ob.facts + ob.pc)
+                r = cert.prove_eq(p, hyps, ob.ctx.order, timeout=CERT_TIMEOUT_S, facts=ob.facts + ob.pc, hyp_main=ob.ctx.hyp_main)
                 res['backend'] = r['backend']
                 res['detail'] = r.get('detail', '')
                 if r['status'] == 'discharged':
